@@ -646,9 +646,11 @@ def r01fgh(ctx):
 def r01_caches(ctx, tom):
     """A read served from an obsolete map or a stale cached wrapper returns another cell than the grid's: the cache rules of C02
     (R02a/R02b from TOM, R02c vault protocol) are necessary conditions of C01 as well and are evaluated here too."""
-    from .c02 import r02ab, r02c
+    from .c02 import r02ab, r02c, r02f
     r02ab(ctx, tom)
     r02c(ctx)
+    # two wrapper indexes that are one dict hand a Column where a Row is asked for (and the reverse): every reset gives each index its own dict
+    r02f(ctx)
     # the bulk editors of the grid read their rows through Table.traverse: rows that are mis-stamped, skipped, or aliases of one another are
     # written back to the wrong place / several places (R08f is a necessary condition of the grid model as well)
     from .c08 import r08f
